@@ -10,12 +10,12 @@ SE2 = "oxmpl/src/base/spaces/se2_state_space.rs"
 SE3 = "oxmpl/src/base/spaces/se3_state_space.rs"
 SOURCES = [SRC, ANY, SE2, SE3]
 PRELUDE = ["core.rs", "spaces.rs"]
-SERVES = ["C13", "C09"]
+SERVES = ["C13", "C09", "C14"]
 FUNCTIONS = [SRC + "::CompoundStateSpace::" + f for f in ("new", "distance", "interpolate", "sample_uniform", "enforce_bounds", "satisfies_bounds", "get_longest_valid_segment_length")] + \
     [ANY + "::<T as AnyStateSpace>::" + f for f in ("distance_dyn", "interpolate_dyn", "enforce_bounds_dyn", "satisfies_bounds_dyn", "get_longest_valid_segment_length_dyn")] + \
     [f_ + "::" + t + "::" + f for f_, t in ((SE2, "SE2StateSpace"), (SE3, "SE3StateSpace")) for f in ("new", "distance", "interpolate", "enforce_bounds", "satisfies_bounds", "sample_uniform", "get_longest_valid_segment_length")]
 # functions whose contract pins an exact float expression (see check.py: a failure counts only with a concrete failing input)
-PROXY_FUNCTIONS = ["distance", "get_longest_valid_segment_length"]
+PROXY_FUNCTIONS = {"distance": ["C13", "C09", "C14"], "get_longest_valid_segment_length": ["C13", "C09", "C14"]}
 TRUSTED = ["verus/prelude/spaces.rs: the AnyStateSpace trait DECLARATION with its contract replaces the declaration in any_state_space.rs (the blanket impl with the downcasts IS verified against it); std::any::Any downcasts as the spec function dc::<S>() (downcast_state_ref / downcast_state_mut_unwrap stubs); compound_as_dyn_mut / rng_as_dyn stand for `&mut` unsizing coercions",
            "component spaces RealVectorStateSpace / SO2StateSpace / SO3StateSpace are opaque stubs in this unit (uninterpreted deterministic component functions, constructor = uninterpreted function new_spec_*)",
            "AnyStateSpace::sample_uniform_dyn of the blanket impl is external_body (local struct + impl inside the function body); Clone impls are external",
@@ -188,7 +188,7 @@ ann('impl#2', 'impl-start', r'''
     /// C13: sampling draws every component from its own space, in order
     open spec fn sample_set(&self, s: &CompoundState) -> bool {
         &&& s.components@.len() == self.subspaces@.len()
-        &&& forall|i: int| 0 <= i < self.subspaces@.len() ==> (#[trigger] self.subspaces@[i]).dyn_sample_set(&*s.components@[i]) && self.subspaces@[i].dyn_accepts(&*s.components@[i])     //@ sample_law [C13]
+        &&& forall|i: int| 0 <= i < self.subspaces@.len() ==> (#[trigger] self.subspaces@[i]).dyn_sample_set(&*s.components@[i]) && self.subspaces@[i].dyn_accepts(&*s.components@[i])     //@ sample_law [C13,C14]
     }
 ''', 'cs.stspecs', tags=['C13'])
 ann('fn sample_uniform', 'loop while#1', r'''
@@ -196,9 +196,9 @@ ann('fn sample_uniform', 'loop while#1', r'''
                 subspace__k <= self.subspaces@.len(),
                 components@.len() == subspace__k,
                 rng.det() == old(rng).det(),
-                forall|j: int| 0 <= j < subspace__k ==> (#[trigger] self.subspaces@[j]).dyn_sample_set(&*components@[j]) && self.subspaces@[j].dyn_accepts(&*components@[j]),     //@ prefix_sampled [C13]
+                forall|j: int| 0 <= j < subspace__k ==> (#[trigger] self.subspaces@[j]).dyn_sample_set(&*components@[j]) && self.subspaces@[j].dyn_accepts(&*components@[j]),     //@ prefix_sampled [C13,C14]
             decreases self.subspaces@.len() - subspace__k,
-''', 'cs.sample.loop', tags=['C13'])
+''', 'cs.sample.loop', tags=['C13', 'C14'])
 ann('fn distance', 'body-start', 'proof { ax_f64_obeys(); }', 'cs.distance.ax')
 ann('fn distance', 'loop for#1', r'''
             invariant
